@@ -18,6 +18,7 @@ type FuncRun struct {
 	Calls  []string
 	Models []string
 	Lemmas []string
+	Globs  []string // package-level variables the function (with its inlined callees) reads
 }
 
 func (v *Verifier) runFunc(name string) *FuncRun {
@@ -39,6 +40,9 @@ func (v *Verifier) runFunc(name string) *FuncRun {
 		}
 		for l := range v.lastExec.usedLemmas {
 			r.Lemmas = append(r.Lemmas, l)
+		}
+		for g := range v.lastExec.globalsRead {
+			r.Globs = append(r.Globs, g)
 		}
 		sort.Strings(r.Calls)
 	}
@@ -97,8 +101,33 @@ func (v *Verifier) cone(p string) (map[string]*FuncRun, []string) {
 				work = append(work, c)
 			}
 		}
+		// a package-level variable read here is assumed to hold its initial value: every function through which
+		// code mentioning it is analysed joins the cone (its frame:global obligation becomes part of the property)
+		for _, g := range r.Globs {
+			for _, m := range v.contractedMentioners(g) {
+				if _, ok := runs[m]; !ok {
+					work = append(work, m)
+				}
+			}
+		}
 	}
 	return runs, roots
+}
+
+// globalsOf lists the package-level variables read inside a cone.
+func globalsOf(runs map[string]*FuncRun) []string {
+	seen := map[string]bool{}
+	var out []string
+	for _, r := range runs {
+		for _, g := range r.Globs {
+			if !seen[g] {
+				seen[g] = true
+				out = append(out, g)
+			}
+		}
+	}
+	sort.Strings(out)
+	return out
 }
 
 type Baseline struct {
@@ -237,6 +266,7 @@ func (v *Verifier) propCheck(prop, tier string, seed int, update bool, t0 time.T
 		obs = append(obs, r.Obs...)
 	}
 	results := Discharge(obs, timeout, all)
+	results = append(results, v.globalEscapeScan(prop, globalsOf(runs))...)
 	if extra != nil {
 		results = append(results, extra(v)...)
 	}
